@@ -137,5 +137,7 @@ void PollPoller::removeChannel(Channel* channel)
     channels_[channelAtEnd]->set_index(idx);
     pollfds_.pop_back();
   }
+  // as EPollPoller does (kNew): the same Channel object may be registered again
+  channel->set_index(-1);
 }
 
